@@ -110,7 +110,7 @@ class C04(Property):
             if ctx.out_of_time():
                 ctx.extra["incomplete"] = True
                 break
-            feats = {"exec": 3} if rng.random() < 0.2 else None
+            feats = {"exec": 4} if rng.random() < 0.35 else None
             spec = wfgen.gen_spec(rng, size=rng.randint(2, 12), features=feats)
             failing = rng.random() < 0.5
             fspec = wfgen.choose_failure(rng, spec) if failing else None
